@@ -423,7 +423,9 @@ def main(tier, seed):
     cfg = {"avoid": sorted(avoid)}
 
     # ---------------- generated schemas
-    n_schemas, nopts = (1100, 3) if tier == "quick" else (9000, 6)
+    # number of Hypothesis examples drawn; roughly a third of them are distinct schemas (the engine's mutation step
+    # often re-derives the same text; a repeated schema contributes its option sets to the first occurrence)
+    n_schemas, nopts = (2400, 3) if tier == "quick" else (18000, 6)
     if os.environ.get("C07_N"):
         n_schemas = int(os.environ["C07_N"])
     nchunks = 32 if tier == "quick" else 96
@@ -431,7 +433,7 @@ def main(tier, seed):
     t0 = time.time()
     chunks = common.pmap(common.guarded(_gen_chunk), [(common.sub_seed(seed, PROP, "gen", i), per, cfg, nopts) for i in range(nchunks)])
     cases = []
-    seen = set()
+    seen = {}
     for status, c in chunks:
         if status != "ok":
             print("machinery failure in the generator:\n" + c)
@@ -440,9 +442,11 @@ def main(tier, seed):
         for s, opts in c:
             h = common.chash(s["text"])
             if h in seen:
-                ev.bump("duplicate-schema-dropped")
+                ev.bump("repeated-schema-merged")
+                prev = cases[seen[h]]
+                cases[seen[h]] = (prev[0], dedupe_opts(prev[1] + opts)[:2 * nopts])
                 continue
-            seen.add(h)
+            seen[h] = len(cases)
             cases.append((s, dedupe_opts(opts)))
     ev.extra["generation_s"] = round(time.time() - t0, 1)
     # the generator's model must be what the independent parser reads (cross-check on a sample)
